@@ -3,6 +3,7 @@ pub mod c02;
 pub mod c04;
 pub mod c07;
 pub mod c08;
+pub mod c09;
 pub mod lincheck;
 pub mod solvers;
 pub mod c05;
@@ -15,6 +16,7 @@ pub fn dispatch(id: &str, args: &RunArgs) -> i32 {
         "C02" => run(&c02::C02, args),
         "C07" => run(&c07::C07, args),
         "C08" => run(&c08::C08, args),
+        "C09" => run(&c09::C09, args),
         "C04" => run(&c04::C04, args),
         "C05" => run(&c05::C05, args),
         _ => {
